@@ -225,4 +225,49 @@ theorem edDecode_mget2 (rb base : Raw) (k : Bytes) :
   | none => simp
   | some v => cases v <;> simp [edDecode, decodeRaw]
 
+/-! ### the two logical key steps (used by Props/C07 `view_step`, Props/C06 `rollback_exact` and the manager invariant) -/
+
+/-- one commit keeps the reconstruction invariant: overlay `o` over `cur` shows `sX` ⇒ after committing `p`
+    (undo patch folded in without overriding) it still shows `sX` -/
+theorem viewOf_step (sX cur : Store) (o : Overlay) (p : Patch)
+    (h : viewOf o cur = sX) :
+    viewOf (woP o (rollbackPatch cur p)) (applyP cur p) = sX := by
+  funext x
+  have hx : viewOf o cur x = sX x := congrFun h x
+  simp only [viewOf] at hx ⊢
+  cases ho : o x with
+  | some y =>
+    rw [woP_keep _ _ _ _ ho]
+    simpa [ho] using hx
+  | none =>
+    simp only [ho] at hx
+    by_cases hm : x ∈ keys p
+    · rw [woP_rollback_fresh cur p o x hm ho]; exact hx
+    · have hm' : x ∉ keys (rollbackPatch cur p) := by
+        simpa [keys, rollbackPatch, List.map_map, Function.comp_def, undoOp_key] using hm
+      rw [woP_not_mem _ _ _ hm', ho]
+      simp only []
+      rw [applyP_not_mem p cur x hm]; exact hx
+
+/-- applying the undo patch recorded at commit time to the committed state gives the previous state -/
+theorem applyP_undo (s : Store) (p : Patch) : applyP (applyP s p) (rollbackPatch s p) = s := by
+  funext x
+  rw [rollback_restores]
+  by_cases h : x ∈ keys p
+  · simp [h]
+  · simp [h, applyP_not_mem p s x h]
+
+theorem applyP_append (s : Store) (p q : Patch) : applyP s (p ++ q) = applyP (applyP s p) q := by
+  simp [applyP, List.foldl_append]
+
+/-- reading a historical root = `viewOf` of the abstractions, as functions -/
+theorem viewOf_empty (s : Store) : viewOf Overlay.empty s = s := by
+  funext k; simp [viewOf, Overlay.empty]
+
+theorem oabs_nil : oabs [] = Overlay.empty := by
+  funext k; simp [oabs, rget, Overlay.empty]
+
+theorem abs_nil : abs [] = Store.empty := by
+  funext k; simp [abs, rget, edDecode, Store.empty]
+
 end ZV.KvLogic
